@@ -106,7 +106,7 @@ theorem callSemLz_agree (w : World) {h h' : Head} {args args' : List Den} {lams 
       obtain ⟨rfl, hr⟩ := hh
       simp only [callSemLz]
       split
-      · exact fnCallLz_agree w m [] (.cons hr ha) hl .nil
+      · exact fnCallLz_agree w m kwn (.cons hr ha) hl hk
       · simp only []
         rw [hr, evalAll_agree ha, evalAll_agree hk]
     | _ => simp only [HeadAgree] at hh
